@@ -367,7 +367,8 @@ def overlap(T, start, k_stop, dur, frac, n_after):
             clock.ns = t
             S["cur"] = w
             w.gate.release()
-            main_gate.acquire()
+            if not main_gate.acquire(True, 300):
+                raise RuntimeError("the worker thread did not come back to a yield point (Event.wait / handler) within 300 s of real time")
             S["cur"] = None
 
     class W(world.FakeThread):
